@@ -311,12 +311,12 @@ func variants(thorough bool) []sx.Variant {
 	var out []sx.Variant
 	for _, p := range ps {
 		p := p
-		bound := 1
-		if p.Scenario == "stall" && !thorough {
-			bound = 0
+		bound := 2
+		if p.Scenario == "stall" {
+			bound = 1
 		}
-		if p.Scenario == "fail" && thorough {
-			bound = 2
+		if thorough {
+			bound++
 		}
 		out = append(out, sx.Variant{
 			Name: p.name(), Class: p.Scenario, MaxSteps: 20000, MaxTime: 10 * time.Minute, Bound: bound, Shards: 4,
